@@ -1194,7 +1194,7 @@ func (s *Sys) spawn(w *ecs.World, e *ecs.EntityEvent, ev *Ev) {
 		}
 	}()
 	cur := w.Ids(e.Entity)
-	variant := (s.spawnSeq / 3) % 4
+	variant := (s.spawnSeq / 3) % 5
 	var ids []ecs.ID
 	var other ecs.Entity
 	switch variant {
@@ -1219,8 +1219,8 @@ func (s *Sys) spawn(w *ecs.World, e *ecs.EntityEvent, ev *Ev) {
 		if !other.IsZero() {
 			ids = w.Ids(other)
 		}
-	case 0:
-		ids = cur
+	case 0, 4:
+		ids = cur // variant 4: ... with the announced entity itself as target: a target that has no table yet
 	case 1:
 		for _, id := range cur {
 			if !e.Added.Get(id) {
@@ -1244,6 +1244,8 @@ func (s *Sys) spawn(w *ecs.World, e *ecs.EntityEvent, ev *Ev) {
 		switch {
 		case variant == 3:
 			target = w.Relations().Get(other, s.IDs[rel])
+		case variant == 4:
+			target = e.Entity
 		case variant == 0:
 			target = ev.TargetAtDelivery
 		case e.OldRelation != nil && *e.OldRelation == s.IDs[rel]:
